@@ -1291,6 +1291,15 @@ class _OperatorCalls(ast.NodeTransformer):
             a0 = ast.Subscript(value=n.args[0], slice=ast.Slice(lower=None, upper=ast.UnaryOp(op=ast.USub(), operand=ast.Constant(value=1)), step=None), ctx=ast.Load())
             n.args[0] = ast.copy_location(a0, n.args[0])
             return ast.fix_missing_locations(n)
+        if isinstance(f, ast.Name) and len(n.args) == 2 and not n.keywords:
+            # from operator import truediv: truediv(a, b) -> a / b
+            r = self.M.resolve(self.fn.mod, f.id)
+            if r and r[0] == "external" and r[1].split(".")[0] in ("operator", "_operator") and "." in r[1]:
+                nm = r[1].split(".", 1)[1]
+                if nm in _OPS:
+                    return ast.copy_location(ast.Compare(left=n.args[0], ops=[_OPS[nm]()], comparators=[n.args[1]]), n)
+                if nm in _BINOPS:
+                    return ast.copy_location(ast.BinOp(left=n.args[0], op=_BINOPS[nm](), right=n.args[1]), n)
         if isinstance(f, ast.Attribute) and isinstance(f.value, ast.Name) and len(n.args) == 2 and not n.keywords:
             r = self.M.resolve(self.fn.mod, f.value.id)
             if r and r[0] == "external" and r[1] in ("operator", "_operator"):
